@@ -304,10 +304,11 @@ def gen_value(rng, ty, valid=True, attached=False):
     if ty == "string":
         if valid:
             return rng.choice([b"foo", b"bar baz", b"", b"a=b", b"=", b"x", "naïve".encode(), "日本".encode(), b"v1", b"k=v=w",
-                               b"%d" % rng.randrange(100)])
+                               b"%d" % rng.randrange(100), b" lead", b"trail ", b" ", b"\ttab\n"])
         return rng.choice([b"\xff", b"a\xc3", b"\xf0\x90", b"ok\x80"])
     # osstring / pathbuf: anything
-    return rng.choice([b"foo", b"/tmp/x", b"", b"a=b", b"\xff\xfe", b"sp ace", "é".encode(), b"w%d" % rng.randrange(100), b"==", b"a\xffb"])
+    return rng.choice([b"foo", b"/tmp/x", b"", b"a=b", b"\xff\xfe", b"sp ace", "é".encode(), b"w%d" % rng.randrange(100), b"==", b"a\xffb",
+                       b" pad ", b"end "])
 
 
 def type_sample_val(rng, ty):
